@@ -15,7 +15,7 @@ import (
 )
 
 var c09Floor = []string{"key", "key.missing", "key.on-array", "key.quoted", "key.quoted.steplike", "key.quoted.plain", "fn.reregistered", "index", "index.multi", "each", "each.flatten", "keep", "range", "range.begin", "range.end",
-	"pipe", "pipe.string", "pipe.number", "pipe.on-array", "continue", "fn.mix", "fn.distinct", "fn.custom", "err.index-oob", "err.index-negative", "err.range-oob", "err.shape", "err.fn", "null.path", "readme.form", "continue.fn-after-null", "pipe.number.zero-padded", "pipe.string.fraction", "pipe.number.on-number", "range.bound-omitted", "pipe.string.missing"}
+	"pipe", "pipe.string", "pipe.number", "pipe.on-array", "continue", "fn.mix", "fn.distinct", "fn.custom", "fn.custom.mixed-case", "err.index-oob", "err.index-negative", "err.range-oob", "err.shape", "err.fn", "null.path", "readme.form", "continue.fn-after-null", "pipe.number.zero-padded", "pipe.string.fraction", "pipe.number.on-number", "range.bound-omitted", "pipe.string.missing"}
 
 func init() {
 	genql.RegisterTopLevelFunction("vsize", func(v any) (any, error) {
@@ -26,6 +26,23 @@ func init() {
 		return float64(len(a)), nil
 	})
 	genql.RegisterTopLevelFunction("visnull", func(v any) (any, error) { return v == nil, nil })
+	// names are registered as written: `vLast` and `vlast` are two functions
+	vlast := func(tag string) func(any) (any, error) {
+		return func(v any) (any, error) {
+			a, ok := v.([]any)
+			if !ok {
+				return nil, fmt.Errorf("%w: %s on non-array", ref.ErrSel, tag)
+			}
+			if len(a) == 0 {
+				return tag, nil
+			}
+			return []any{tag, a[len(a)-1]}, nil
+		}
+	}
+	genql.RegisterTopLevelFunction("vLast", vlast("camel"))
+	genql.RegisterTopLevelFunction("vlast", vlast("lower"))
+	ref.TopFns["vLast"] = vlast("camel")
+	ref.TopFns["vlast"] = vlast("lower")
 	ref.TopFns["visnull"] = func(v any) (any, error) { return v == nil, nil }
 	ref.TopFns["vsize"] = func(v any) (any, error) {
 		a, ok := v.([]any)
@@ -219,7 +236,7 @@ func c09Selector(c *fw.Case, doc map[string]any, force string, feats *[]string) 
 	quoteAll := force == "" && c.Chance(0.15)
 	// ... in another share every other key or so
 	quoteSome := force == "" && !quoteAll && c.Chance(0.3)
-	if force == "fn.mix" || force == "fn.distinct" || force == "fn.custom" || force == "err.fn" || c.Chance(0.12) {
+	if force == "fn.mix" || force == "fn.distinct" || force == "fn.custom" || force == "fn.custom.mixed-case" || force == "err.fn" || c.Chance(0.12) {
 		switch {
 		case force == "fn.mix":
 			seg.Fn = "mix"
@@ -230,10 +247,14 @@ func c09Selector(c *fw.Case, doc map[string]any, force string, feats *[]string) 
 		case force == "err.fn":
 			seg.Fn = "nosuchfn"
 		default:
-			seg.Fn = gen.Pick(c.R, []string{"mix", "distinct", "vsize"})
+			seg.Fn = gen.Pick(c.R, []string{"mix", "distinct", "vsize", "vLast", "vlast", "VLAST"})
+		case force == "fn.custom.mixed-case":
+			seg.Fn = "vLast"
 		}
-		if seg.Fn == "nosuchfn" {
+		if seg.Fn == "nosuchfn" || seg.Fn == "VLAST" {
 			feat("err.fn")
+		} else if seg.Fn == "vLast" || seg.Fn == "vlast" {
+			feat("fn.custom.mixed-case")
 		} else if seg.Fn == "vsize" {
 			feat("fn.custom")
 		} else {
